@@ -355,9 +355,7 @@ func c18RunInner(sc c18Scenario) (res vk.Result, err error) {
 				up, down := op.Up, op.Down
 				var a [16]byte
 				copy(a[:], uid)
-				e.panel.usageUpdateQueueM.Lock()
-				e.panel.usageUpdateQueue[a] = &usagePair{&up, &down}
-				e.panel.usageUpdateQueueM.Unlock()
+				vQueueUsage(e.panel, a, up, down)
 				if cerr := e.panel.commitUpdate(); cerr != nil {
 					return res, vk.Violatef("%s: usage upload failed: %v", phase, cerr)
 				}
